@@ -143,7 +143,8 @@ def drange(t0 = None, t1 = None, bump = None):
         if (t1-t0).days * bump <= 0:
             raise ValueError('cannot go from %s to %s in steps of %s'%(t0,t1,bump))
         freq = DAILY
-        res = list(rrule(freq, interval = 1, dtstart = min(t0,t1), until = max(t0,t1))) # unfortunately does not actually work for negative bumps
+        us = datetime.timedelta(microseconds = t0.microsecond) ## rrule drops microseconds
+        res = [t + us for t in rrule(freq, interval = 1, dtstart = min(t0,t1), until = max(t0,t1))] # unfortunately does not actually work for negative bumps
         res = res[::-1] if bump<0 else res
         res = res[::abs(bump)] if abs(bump)>1 else res
         return res
@@ -176,7 +177,8 @@ def drange(t0 = None, t1 = None, bump = None):
                 raise ValueError('cannot go from %s to %s in steps of %s'%(t0,t1,bump))
             freq = _LY[prd]
             if prd == 'b':
-                res = [t for t in rrule(freq, interval = 1, dtstart = min(t0,t1), until = max(t0,t1)) if t.weekday()<5]
+                us = datetime.timedelta(microseconds = t0.microsecond) ## rrule drops microseconds
+                res = [t + us for t in rrule(freq, interval = 1, dtstart = min(t0,t1), until = max(t0,t1)) if t.weekday()<5]
                 res = res[::-1] if interval<0 else res    
                 res = res[::abs(interval)] if abs(interval)>1 else res
                 return res            
@@ -187,7 +189,8 @@ def drange(t0 = None, t1 = None, bump = None):
                     t = dt_bump(t, bump)
                 return res
             else:
-                return list(rrule(freq, interval = interval, dtstart = t0, until = t1))
+                us = datetime.timedelta(microseconds = t0.microsecond) ## rrule drops microseconds
+                return [t + us for t in rrule(freq, interval = interval, dtstart = t0, until = t1 - us)]
         else:
             t = t0
             res = []
